@@ -6,7 +6,8 @@ import LitexModel.Machine
   from the bus).  `data` and `ack` are registers of the machine that `I2CMaster` also writes from the bus; the
   model input `poke` replaces them at the beginning of a cycle (the harness writes the registers directly).
 
-  run = start | stop | write | read;  idle = ~run & IDLE;  cg.ce = ~idle;  fsm.ce = run | clk2x;
+  run = start | stop | write | read;  idle = ~run & IDLE;  cg.ce = ~idle;
+  fsm.ce = (run & IDLE) | clk2x   (fix 86eb66e: a command strobe advances the FSM only from IDLE);
   clk2x = (cnt == 0);  cnt := clk2x ? load : cnt - 1 (when cg.ce).                                       -/
 namespace Litex.Periph
 
@@ -90,7 +91,7 @@ def i2cIdle (s : I2cSt) (i : I2cIn) : Bool := !i.run && s.fsm == .idle
 def i2cNext (_cw : Nat) (s0 : I2cSt) (i : I2cIn) : I2cSt :=
   let s := i2cPoked s0 i
   let clk2x := s.cnt == 0
-  let s1 := if i.run || clk2x then i2cFsmStep s i else s
+  let s1 := if (i.run && s.fsm == .idle) || clk2x then i2cFsmStep s i else s
   { s1 with cnt := if i2cIdle s i then s.cnt else if clk2x then i.load else s.cnt - 1 }
 
 def i2cMachine (cw : Nat) : Machine I2cIn I2cSt I2cOut where
